@@ -164,9 +164,12 @@ class HList(HObjBase):
     def __init__(self, segs=None, ordered=True, is_set=False):
         self.segs = list(segs or [])
         self.is_set = is_set
+        self.sorted_by = None
 
     def clone(self):
-        return HList(self.segs, is_set=self.is_set)
+        c = HList(self.segs, is_set=self.is_set)
+        c.sorted_by = self.sorted_by
+        return c
 
     def concrete(self):
         return all(s[0] == "one" for s in self.segs)
